@@ -355,7 +355,10 @@ pub fn poison_spare<E: Elem, Tr: ?Sized + TrSet, M: MemB>(v: &mut AnyVec<Tr, M>)
 /// hold its poison, fresh-storage fill, a destroyed value, or a whole element copy. Anything
 /// else (guard-zone bytes, another slot's poison, torn values) shows that the library copied
 /// bytes from outside the initialised elements or outside the capacity.
-pub fn scan_spare<E: Elem>(base: *const u8, len: usize, cap: usize) -> Option<usize> {
+/// `fresh`: the storage was obtained or resized in the step just made. A library may fill storage it
+/// has just obtained with whatever it likes, so any uniform slot passes there; elsewhere a slot must
+/// still hold what the harness put there, or a whole (moved-out or destroyed) element.
+pub fn scan_spare<E: Elem>(base: *const u8, len: usize, cap: usize, fresh: bool) -> Option<usize> {
     let size = size_of::<E>();
     if size == 0 || len > cap || cap > (1 << 22) {
         return None;
@@ -364,7 +367,8 @@ pub fn scan_spare<E: Elem>(base: *const u8, len: usize, cap: usize) -> Option<us
         let p = unsafe { std::slice::from_raw_parts(base.add(j * size), size) };
         let first = p[0];
         let uniform = p.iter().all(|b| *b == first);
-        if uniform && (first == SPARE_POISON[j % 4] || first == POISON || first == DEAD) {
+        // (all-zero: a library may legitimately clear storage it has just obtained)
+        if uniform && (fresh || first == SPARE_POISON[j % 4] || first == POISON || first == DEAD || first == 0) {
             continue;
         }
         if unsafe { E::read_tag(p.as_ptr()) } != simcore::registry::INVALID_TAG {
@@ -1382,6 +1386,8 @@ where
     bad: [bool; 3],
     /// spare capacity of the slot was poisoned by the harness and the vector instance is unchanged since
     scan_ready: [bool; 3],
+    /// (storage address, capacity) of each slot when its spare capacity was last poisoned
+    last_store: [(usize, usize); 3],
     free_place: bool,
     poison: bool,
     _m: PhantomData<E>,
@@ -1492,7 +1498,7 @@ where
     Twin<E>: SatisfyTraits<Tr>,
 {
     pub fn new(id: u32) -> Self {
-        World { id, a0: None, a1: None, b: None, pool: Vec::new(), diag: String::new(), bad: [false; 3], scan_ready: [false; 3], free_place: false, poison: true, _m: PhantomData }
+        World { id, a0: None, a1: None, b: None, pool: Vec::new(), diag: String::new(), bad: [false; 3], scan_ready: [false; 3], last_store: [(0, 0); 3], free_place: false, poison: true, _m: PhantomData }
     }
 
     fn exec_inner(&mut self, r: &RStep, ev: &mut Vec<Ev>) {
@@ -1894,9 +1900,10 @@ where
                         self.bad[slot] = true;
                     } else if poison {
                         if self.scan_ready[slot] && s.len_le_cap && s.storage_addr != 0 {
-                            s.spare_bad = scan_spare::<E>(s.storage_addr as *const u8, s.len, s.cap);
+                            s.spare_bad = scan_spare::<E>(s.storage_addr as *const u8, s.len, s.cap, self.last_store[slot] != (s.storage_addr, s.cap));
                         }
                         self.scan_ready[slot] = poison_spare::<E, Tr, MA>(p.get());
+                        self.last_store[slot] = (s.storage_addr, s.cap);
                     }
                     s
                 }
@@ -1910,9 +1917,10 @@ where
                         self.bad[slot] = true;
                     } else if poison {
                         if self.scan_ready[slot] && s.len_le_cap && s.storage_addr != 0 {
-                            s.spare_bad = scan_spare::<E>(s.storage_addr as *const u8, s.len, s.cap);
+                            s.spare_bad = scan_spare::<E>(s.storage_addr as *const u8, s.len, s.cap, self.last_store[slot] != (s.storage_addr, s.cap));
                         }
                         self.scan_ready[slot] = poison_spare::<E, Tr, MA>(p.get());
+                        self.last_store[slot] = (s.storage_addr, s.cap);
                     }
                     s
                 }
@@ -1926,9 +1934,10 @@ where
                         self.bad[slot] = true;
                     } else if poison {
                         if self.scan_ready[slot] && s.len_le_cap && s.storage_addr != 0 {
-                            s.spare_bad = scan_spare::<E>(s.storage_addr as *const u8, s.len, s.cap);
+                            s.spare_bad = scan_spare::<E>(s.storage_addr as *const u8, s.len, s.cap, self.last_store[slot] != (s.storage_addr, s.cap));
                         }
                         self.scan_ready[slot] = poison_spare::<E, Tr, MB>(p.get());
+                        self.last_store[slot] = (s.storage_addr, s.cap);
                     }
                     s
                 }
